@@ -6,7 +6,7 @@
 #include <plibsys.h>
 #include "vtrace.h"
 
-typedef struct Obj_ { long magic; int k; int id; int destroyed; int kind; } Obj;
+typedef struct Obj_ { long magic; int k; int id; int destroyed; int kind; int prev_id; int reins; } Obj;
 #define MAGIC 0x5ca1ab1e0ddba11L
 
 static Obj **objs; static Obj *shadow; static int nobjs, capobjs;
@@ -22,13 +22,15 @@ static int rec_on; static int path[256]; static int npath; static long ncmp;
 
 static Obj *mkobj (int kind, int k) {
 	Obj *o = malloc (sizeof (Obj));
-	o->magic = MAGIC; o->k = k; o->id = next_id++; o->destroyed = 0; o->kind = kind;
+	o->magic = MAGIC; o->k = k; o->id = next_id++; o->destroyed = 0; o->kind = kind; o->prev_id = 0; o->reins = 0;
 	if (nobjs == capobjs) { capobjs = capobjs ? capobjs * 2 : 1024; objs = realloc (objs, capobjs * sizeof (Obj *)); shadow = realloc (shadow, capobjs * sizeof (Obj)); }
 	objs[nobjs] = o; shadow[nobjs] = *o; nobjs++;
 	return o;
 }
 static void kdestroy (ppointer p) { Obj *o = p; if (ndlog < 4096) { dlog[ndlog][0] = 'K'; dlog[ndlog][1] = o ? o->id : -1; ndlog++; } if (o) o->destroyed++; }
-static void vdestroy (ppointer p) { Obj *o = p; if (ndlog < 4096) { dlog[ndlog][0] = 'V'; dlog[ndlog][1] = o ? o->id : -1; ndlog++; } if (o) o->destroyed++; }
+/* a value object that is inserted again while it is stored (op insv) counts as a new insertion with an id of its own: a notification that arrives
+ * during that insert call is for the stored (previous) incarnation */
+static void vdestroy (ppointer p) { Obj *o = p; int id = o ? o->id : -1; if (o && o->reins) { id = o->prev_id; o->reins = 0; } if (ndlog < 4096) { dlog[ndlog][0] = 'V'; dlog[ndlog][1] = id; ndlog++; } if (o) o->destroyed++; }
 static pint cmp_data (pconstpointer a, pconstpointer b, ppointer data) {
 	const Obj *x = a, *y = b;
 	if (wd ? data != &cookie : data != NULL) data_bad = 1;
@@ -116,6 +118,19 @@ int main (int argc, char **argv) {
 		else if (!strcmp (op, "ins")) {
 			Obj *k = mkobj ('K', a), *v = mkobj ('V', a);
 			p_tree_insert (tree, k, v);
+			VT ("{\"e\":\"ins\",\"k\":%d,\"kid\":%d,\"vid\":%d,\"n\":%d,", a, k->id, v->id, (int) p_tree_get_nnodes (tree));
+			emit_d (); VT ("}"); VT_END ();
+		}
+		else if (!strcmp (op, "insv")) {        /* insert with a new key object and the value object that is stored under that key right now */
+			Obj probe, *k, *v; int i;
+			probe.magic = MAGIC; probe.k = a; probe.id = 0;
+			v = p_tree_lookup (tree, &probe);
+			k = mkobj ('K', a);
+			if (!v) v = mkobj ('V', a);
+			else { v->prev_id = v->id; v->id = next_id++; v->reins = 1; for (i = 0; i < nobjs; i++) if (objs[i] == v) shadow[i].id = v->id; }
+			p_tree_insert (tree, k, v);
+			if (v->reins) v->reins = 0; else if (v->prev_id && v->destroyed) v->destroyed--;      /* the new incarnation is alive */
+			for (i = 0; i < nobjs; i++) if (objs[i] == v) shadow[i] = *v;
 			VT ("{\"e\":\"ins\",\"k\":%d,\"kid\":%d,\"vid\":%d,\"n\":%d,", a, k->id, v->id, (int) p_tree_get_nnodes (tree));
 			emit_d (); VT ("}"); VT_END ();
 		}
